@@ -9,6 +9,7 @@ from ..guards import returns_true_formula
 from ..loader import AnalysisError, norm, own_nodes, src
 
 LEVEL = "proof"
+_CELLS = 0
 
 SYMBOLS = ["", "$", "<", ">"]
 ALLOWED_READS = {"descriptor", "descriptor_id", "bond_type"}
@@ -31,44 +32,113 @@ def _is_compat_env(params):
     }
 
 
+IDS = [""] + list(range(13))
+ORDERS = ["SINGLE", "DOUBLE", "TRIPLE", "ONEANDAHALF"]
+
+
+class _Ret(Exception):
+    def __init__(self, v):
+        self.v = v
+
+
+def _ev(e, env):
+    """Tiny pure evaluator (A-FINITE): attribute reads of the two operands, constants, ==/!=/in/not in/is,
+    and/or/not with Python value semantics, tuples, conditional expressions."""
+    if isinstance(e, ast.Constant):
+        return e.value
+    if isinstance(e, ast.Name):
+        if e.id in env:
+            return env[e.id]
+        raise AnalysisError(f"name {e.id} outside the abstract domain")
+    if isinstance(e, ast.Attribute) and isinstance(e.value, ast.Name) and isinstance(env.get(e.value.id), dict):
+        obj = env[e.value.id]
+        if e.attr in obj:
+            return obj[e.attr]
+        raise AnalysisError(f"attribute {e.attr} outside the abstract domain (symbol / id / order)")
+    if isinstance(e, ast.Tuple):
+        return tuple(_ev(x, env) for x in e.elts)
+    if isinstance(e, ast.List):
+        return [_ev(x, env) for x in e.elts]
+    if isinstance(e, ast.Set):
+        return {_ev(x, env) for x in e.elts}
+    if isinstance(e, ast.UnaryOp) and isinstance(e.op, ast.Not):
+        return not _ev(e.operand, env)
+    if isinstance(e, ast.BoolOp):
+        v = None
+        for x in e.values:
+            v = _ev(x, env)
+            if isinstance(e.op, ast.And) and not v:
+                return v
+            if isinstance(e.op, ast.Or) and v:
+                return v
+        return v
+    if isinstance(e, ast.IfExp):
+        return _ev(e.body, env) if _ev(e.test, env) else _ev(e.orelse, env)
+    if isinstance(e, ast.Compare):
+        left = _ev(e.left, env)
+        for op, r in zip(e.ops, e.comparators):
+            right = _ev(r, env)
+            if isinstance(op, ast.Eq):
+                ok = left == right
+            elif isinstance(op, ast.NotEq):
+                ok = left != right
+            elif isinstance(op, ast.In):
+                ok = left in right
+            elif isinstance(op, ast.NotIn):
+                ok = left not in right
+            elif isinstance(op, ast.Is):
+                ok = left is right
+            elif isinstance(op, ast.IsNot):
+                ok = left is not right
+            elif isinstance(op, (ast.Lt, ast.LtE, ast.Gt, ast.GtE)) and isinstance(left, int) and isinstance(right, int) and not isinstance(left, bool):
+                ok = {ast.Lt: left < right, ast.LtE: left <= right, ast.Gt: left > right, ast.GtE: left >= right}[type(op)]
+            else:
+                raise AnalysisError(f"comparison {type(op).__name__} on {left!r}, {right!r} outside the abstract domain")
+            if not ok:
+                return False
+            left = right
+        return True
+    if isinstance(e, ast.Call) and isinstance(e.func, ast.Name) and e.func.id in ("bool", "str", "int") and len(e.args) == 1:
+        v = _ev(e.args[0], env)
+        return {"bool": bool, "str": str, "int": int}[e.func.id](v)
+    raise AnalysisError(f"expression {src(e)[:50]} outside the abstract domain")
+
+
+def _run(stmts, env):
+    for s in stmts:
+        if isinstance(s, ast.Return):
+            raise _Ret(_ev(s.value, env) if s.value is not None else None)
+        if isinstance(s, ast.If):
+            _run(s.body if _ev(s.test, env) else s.orelse, env)
+        elif isinstance(s, ast.Assign) and len(s.targets) == 1 and isinstance(s.targets[0], ast.Name):
+            env[s.targets[0].id] = _ev(s.value, env)
+        elif isinstance(s, (ast.Pass,)) or (isinstance(s, ast.Expr) and isinstance(s.value, ast.Constant)):
+            continue
+        else:
+            raise AnalysisError(f"statement {src(s)[:50]} outside the loop-free fragment A-FINITE evaluates")
+
+
 def decide_table(eng, fi, res=None):
-    """Evaluate is_compatible over the 64-cell abstract domain.  Returns list of (cell, result)."""
-    canon = Canon()
-    f = returns_true_formula(eng, fi, canon)
-    T = _is_compat_env(fi.params)
-    atoms = atoms_of(f)
-    table = []
-    for sd, od, id_eq, ord_eq in itertools.product(SYMBOLS, SYMBOLS, [True, False], [True, False]):
-
-        def val(a):
-            k = a[0]
-            if k == "eq":
-                x, y = a[1], a[2]
-                pair = {x, y}
-                if pair == {T["sd"], T["od"]}:
-                    return sd == od
-                if pair == {T["sid"], T["oid"]}:
-                    return id_eq
-                if pair == {T["sb"], T["ob"]}:
-                    return ord_eq
-                for t, v in ((T["sd"], sd), (T["od"], od)):
-                    if x == t and y.startswith("'"):
-                        return v == ast.literal_eval(y)
-                    if x == t and y.startswith('"'):
-                        return v == ast.literal_eval(y)
-            if k == "truthy":
-                if a[1] == T["sd"]:
-                    return sd != ""
-                if a[1] == T["od"]:
-                    return od != ""
-            if k == "in":
-                pass
-            raise AnalysisError(
-                f"is_compatible uses an operation outside the abstract domain (symbol/id/order equalities): {canon.atoms.get(a, a)}"
-            )
-
-        table.append(((sd, od, id_eq, ord_eq), evaluate(f, val)))
-    return table, canon, f
+    """Evaluate is_compatible on the property's whole universe: symbols x ids {none,0..12} x four bond orders."""
+    me, other = fi.params[0], fi.params[1]
+    table = {}
+    cells = 0
+    for sd, od in itertools.product(SYMBOLS, SYMBOLS):
+        bad = []
+        for si, oi, so, oo in itertools.product(IDS, IDS, ORDERS, ORDERS):
+            env = {me: {"descriptor": sd, "descriptor_id": si, "bond_type": "BondType." + so},
+                   other: {"descriptor": od, "descriptor_id": oi, "bond_type": "BondType." + oo}}
+            try:
+                _run(fi.node.body, env)
+                r = None
+            except _Ret as ret:
+                r = ret.v
+            cells += 1
+            want = (si == oi and type(si) is type(oi)) and so == oo and (sd, od) in {("$", "$"), ("<", ">"), (">", "<")}
+            if bool(r) != want:
+                bad.append(((si, oi, so, oo), r))
+        table[(sd, od)] = bad
+    return table, cells
 
 
 def expected(cell) -> bool:
@@ -155,32 +225,26 @@ def check(eng, res):
     res.ob("R-COMPAT-READSET", fi, "read-set", "reads ⊆ {descriptor, descriptor_id, bond_type} of self/other; no call, no global",
            fi.node, not bad, "; ".join(bad))
     # ---- table
+    global _CELLS
+    table = {}
     try:
-        table, canon, f = decide_table(eng, fi)
+        table, _CELLS = decide_table(eng, fi)
     except AnalysisError as exc:
-        if not bad:
-            raise
-        res.ob("R-COMPAT-TABLE", fi, "evaluable", "is_compatible is a function of symbol / id / order only", fi.node, False,
-               f"cannot be evaluated on the abstract domain because it reads more: {exc}")
-        table = []
-    wrong = [(c, r) for c, r in table if r != expected(c)]
-    for c, r in table:
-        sd, od, ie, oe = c
+        res.ob("R-COMPAT-TABLE", fi, "evaluable", "is_compatible is a function of symbol / id / order only, built from equality tests", fi.node, False,
+               f"cannot be evaluated on the universe: {exc}")
+    for (sd, od), bad in sorted(table.items()):
         res.ob(
             "R-COMPAT-TABLE",
             fi,
-            f"cell:{sd or '[]'}:{od or '[]'}:{'id=' if ie else 'id≠'}:{'ord=' if oe else 'ord≠'}",
-            f"is_compatible([{sd}],[{od}], ids {'equal' if ie else 'different'}, orders {'equal' if oe else 'different'}) = {expected(c)}",
+            f"symbols:{sd or '[]'}:{od or '[]'}",
+            f"[{sd}] with [{od}]: compatible iff ids equal (none is an id of its own), orders equal and symbols conjugate — all 14x14 ids x 4x4 orders",
             fi.node,
-            r == expected(c),
-            f"code yields {r}",
+            not bad,
+            f"{len(bad)} cell(s) differ, e.g. ids {bad[0][0][0]!r}/{bad[0][0][1]!r} orders {bad[0][0][2]}/{bad[0][0][3]} -> {bad[0][1]!r}" if bad else "",
         )
-    # symmetry read off the table
-    tbl = dict(table)
-    asym = [(c) for c in tbl if tbl[c] != tbl[(c[1], c[0], c[2], c[3])]]
-    res.ob("R-COMPAT-TABLE", fi, "symmetry", "relation symmetric on all 64 cells", fi.node, not asym, f"asymmetric cells {asym[:3]}")
-    empty = [c for c in tbl if (c[0] == "" or c[1] == "") and tbl[c]]
-    res.ob("R-COMPAT-TABLE", fi, "empty-terminal", "[] bonds with nothing", fi.node, not empty, f"{empty[:3]}")
+    if table:
+        asym = [k for k in table if {c for c, _ in table[k]} != {(c[1], c[0], c[3], c[2]) for c, _ in table[(k[1], k[0])]}]
+        res.ob("R-COMPAT-TABLE", fi, "symmetry", "relation symmetric on the whole universe", fi.node, not asym and not any(table.values()) or not asym, f"asymmetric symbol pairs {asym[:3]}")
     # ---- abstraction facts in the constructor
     init = prog.func("bond.BondDescriptor.__init__")
     res.unit(init)
@@ -280,7 +344,7 @@ def check(eng, res):
             ret_ok = "asarray" in t or t.startswith("[")
     res.ob("R-COMPAT-UNIQUE", g, "filter-return", "the collected index list is what is returned", g.node, ret_ok)
     if table:
-        res.floor("R-COMPAT-TABLE", sum(1 for o in res.obligations if o.rule == "R-COMPAT-TABLE"), 66)
+        res.floor("R-COMPAT-TABLE", sum(1 for o in res.obligations if o.rule == "R-COMPAT-TABLE"), 17)
     res.assumptions += [
         "Python == on str / int / RDKit BondType enum values is an equivalence relation",
         "A-FINITE evaluator (sa/formula.py, sa/guards.py) is correct (self-tested on equivalent and non-equivalent variants)",
@@ -298,7 +362,8 @@ def extra_coverage(eng, res):
         "checker_cmd": "/venv/bin/python sa/check.py C03",
         "trusted_base": ["python ast module", "sa/formula.py (A-FINITE evaluator)", "sa/guards.py returns_true_formula", "sa/cfg.py"],
         "exhaustive": True,
-        "explanation": "finite universe decided exactly: the 64-cell abstraction (symbol x symbol x id-equality x order-equality) is complete because is_compatible only compares these attributes; the property's universe (ids none/0..12, five prefixes, weight forms) maps onto it through the constructor facts R-COMPAT-ABSTRACTION and R-BONDORDER-TABLE",
+        "evaluations": _CELLS,
+        "explanation": "the property's universe is enumerated completely: 4x4 symbols x 14x14 ids (none, 0..12) x 4x4 bond orders = 50176 ordered pairs, is_compatible evaluated on each by a pure finite-domain evaluator of its source; the five prefixes map onto the four orders by R-BONDORDER-TABLE, weight forms are excluded by R-COMPAT-READSET, constructor facts by R-COMPAT-ABSTRACTION",
     }
 
 
